@@ -38,7 +38,7 @@ een := nil.try.{|x| raise TypeErr.new("inner")}
 
 type step struct {
 	Src string `json:"src"`
-	Tag string `json:"tag,omitempty"` // wrapper-defined | absent | noncallable
+	Tag string `json:"tag,omitempty"` // wrapper-defined | absent | noncallable | multi-param-literal
 	Obj bool   `json:"obj,omitempty"` // only meaningful on the object receiver
 }
 
@@ -50,6 +50,8 @@ func alphabet() []step {
 		{Src: ".foo", Tag: "absent"}, {Src: ".v", Tag: "noncallable", Obj: true}, {Src: ".bad", Obj: true}, {Src: ".f(7)", Obj: true}, {Src: ".w", Obj: true},
 		{Src: `.{|x| "s".p; x}`}, {Src: `.{|x| "s".p; nil}`}, {Src: `.{|x| "s".p; [x]}`}, {Src: `.{|x| "s".p; 1 / 0}`}, {Src: `.{|x| "s".p; x.nosuch}`}, {Src: ".^idf"},
 		{Src: `.{|x| "s".p; x + 1}`},
+		// a literal with several parameters: an array receiver is spread over them
+		{Src: `.{|a, b| "s".p; [b, a]}`, Tag: "multi-param-literal"},
 		// a step that SUCCEEDS and returns an error object (an ordinary value); steps returning Either values are not
 		// generated: later steps of the plain chain would then run on an Either, which is no plain baseline
 		{Src: `.{|x| "s".p; ew}`}, {Src: `.{|x| "s".p; [ew]}`}, {Src: ".err1", Obj: true},
@@ -196,6 +198,10 @@ func keyOf(t tcase, class string, plain, w panrun.Obs) string {
 		case "absent":
 			if tag == "" {
 				tag = "absent-property-step"
+			}
+		case "multi-param-literal":
+			if tag == "" {
+				tag = "multi-parameter-literal-step-on-array"
 			}
 		}
 	}
